@@ -178,3 +178,5 @@ func genInvalid(ctx *Ctx, idx int, err interface{}, evs []ev.Event) error {
 	}
 	return nil
 }
+
+func findingOpen(key string) bool { return harness.Open(key) }
